@@ -3,15 +3,22 @@ package main
 import (
 	"encoding/json"
 	"fmt"
+	"strings"
+	"sync"
 
 	"github.com/ohler55/slip"
 
 	"verifharness/internal/h"
 )
 
-// C16: equality relations and hash-table histories.
-// First stimulus line: {"univ":["1","1.0",...]}  -> event {"ev":"rel", matrices...}
-// Then histories: {"id":3,"ops":[{"ev":"put","k":4,"v":17},{"ev":"get","k":4},{"ev":"rem","k":4}]}
+// C16: equality relations, type predicates and hash-table histories.
+// First stimulus line: {"univ":["1","1.0",...],"types":["t","number",...],"coerce":[[i,"float"],...]}
+//
+//	-> event {"ev":"rel","i":0, matrices eq/eql/equal/equalp, sxhash, typeof, typep, subtypep, coerce}
+//
+// Then histories: {"id":3,"test":"equal","keys":[14,15,16,17],"ops":[{"ev":"put","k":0,"v":1},{"ev":"get","k":1}, ...]}
+//
+//	(k = slot into keys; events carry the universe index) -> one event per operation.
 func init() { drivers["c16"] = c16 }
 
 type c16Op struct {
@@ -21,38 +28,97 @@ type c16Op struct {
 }
 
 type c16Stim struct {
-	Univ []string `json:"univ"`
-	ID   int      `json:"id"`
-	Test string   `json:"test"`
-	Ops  []c16Op  `json:"ops"`
+	Univ   []string `json:"univ"`
+	Types  []string `json:"types"`
+	Coerce [][]any  `json:"coerce"`
+	ID     int      `json:"id"`
+	Test   string   `json:"test"`
+	Keys   []int    `json:"keys"`
+	Ops    []c16Op  `json:"ops"`
 }
 
 func c16(args []string) {
 	out := h.NewOut()
 	defer out.Flush()
 	s := slip.NewScope()
-	truthy := func(o h.Outcome) bool { return o.OK() && o.Val != nil }
+	// maphash callback: collects (universe index, value) of every visited entry
+	var (
+		mu   sync.Mutex
+		seen []any
+		nu   int
+	)
+	h.Define("vseen", func(sc *slip.Scope, a slip.List, depth int) slip.Object {
+		mu.Lock()
+		defer mu.Unlock()
+		// identify the key: the universe object it is eq to, else the first one it is equalp to
+		idx := 0
+		s.Let(slip.Symbol("vkey"), a[0])
+		found := false
+		for _, p := range []string{"eq", "equalp"} {
+			for i := 0; i < nu && !found; i++ {
+				if o := h.Eval(s, fmt.Sprintf("(%s u%d vkey)", p, i)); o.OK() && o.Val != nil {
+					idx, found = i, true
+				}
+			}
+		}
+		v := -1
+		if f, ok := a[1].(slip.Fixnum); ok {
+			v = int(f)
+		}
+		seen = append(seen, h.V{"k": idx, "v": v})
+		return nil
+	})
 	h.Lines(func(line []byte) {
 		var st c16Stim
 		if err := json.Unmarshal(line, &st); err != nil {
 			panic(err)
 		}
 		if st.Univ != nil {
+			nu = len(st.Univ)
 			for i, e := range st.Univ {
-				h.Eval(s, fmt.Sprintf("(setq u%d %s)", i, e))
+				if o := h.Eval(s, fmt.Sprintf("(setq u%d %s)", i, e)); !o.OK() {
+					panic("universe element " + e + ": " + o.Msg)
+				}
 			}
 			n := len(st.Univ)
-			ev := h.V{"ev": "rel", "univ": st.Univ, "t": 0, "i": 0}
+			ev := h.V{"ev": "rel", "univ": st.Univ, "types": st.Types, "t": 0, "i": 0}
+			// every call made for the matrices that signals instead of answering: the predicates are total
+			errors := []string{}
+			truthy := func(call string) bool {
+				o := h.Eval(s, call)
+				if !o.OK() {
+					if len(errors) < 200 {
+						errors = append(errors, call+" signals "+o.Class)
+					}
+					return false
+				}
+				return o.Val != nil
+			}
 			for _, p := range []string{"eq", "eql", "equal", "equalp"} {
 				m := make([][]bool, n)
 				for i := 0; i < n; i++ {
 					m[i] = make([]bool, n)
 					for j := 0; j < n; j++ {
-						m[i][j] = truthy(h.Eval(s, fmt.Sprintf("(%s u%d u%d)", p, i, j)))
+						m[i][j] = truthy(fmt.Sprintf("(%s u%d u%d)", p, i, j))
 					}
 				}
 				ev[p] = m
 			}
+			// which keys a table treats as the same key: store under x_i, look up x_j (fresh table per i)
+			ident := make([][]bool, n)
+			for i := 0; i < n; i++ {
+				ident[i] = make([]bool, n)
+				if !h.Eval(s, fmt.Sprintf("(progn (setq hi (make-hash-table :test 'equalp)) (setf (gethash u%d hi) 1))", i)).OK() {
+					continue
+				}
+				for j := 0; j < n; j++ {
+					o := h.Eval(s, fmt.Sprintf("(multiple-value-list (gethash u%d hi))", j))
+					if l, ok := o.Val.(slip.List); ok && len(l) == 2 {
+						ident[i][j] = l[1] != nil
+					}
+				}
+			}
+			ev["ident"] = ident
 			hash := make([]int, n)
 			for i := 0; i < n; i++ {
 				hash[i] = -1
@@ -60,39 +126,116 @@ func c16(args []string) {
 					if f, ok := o.Val.(slip.Fixnum); ok {
 						hash[i] = int(f % 1000003)
 					}
+				} else {
+					errors = append(errors, fmt.Sprintf("(sxhash u%d) signals %s", i, o.Class))
 				}
 			}
 			ev["sxhash"] = hash
+			tindex := map[string]int{}
+			for j, t := range st.Types {
+				tindex[t] = j + 1
+			}
+			typeof, typep := make([]int, n), make([][]bool, n)
+			for i := 0; i < n; i++ {
+				if o := h.Eval(s, fmt.Sprintf("(type-of u%d)", i)); o.OK() {
+					typeof[i] = tindex[slip.ObjectString(o.Val)]
+				} else {
+					errors = append(errors, fmt.Sprintf("(type-of u%d) signals %s", i, o.Class))
+				}
+				typep[i] = make([]bool, len(st.Types))
+				for j, t := range st.Types {
+					typep[i][j] = truthy(fmt.Sprintf("(typep u%d '%s)", i, t))
+				}
+			}
+			ev["typeof"], ev["typep"] = typeof, typep
+			sub := make([][]h.V, len(st.Types))
+			for a, ta := range st.Types {
+				sub[a] = make([]h.V, len(st.Types))
+				for b, tb := range st.Types {
+					cell := h.V{"v": false, "sure": false}
+					if o := h.Eval(s, fmt.Sprintf("(multiple-value-list (subtypep '%s '%s))", ta, tb)); o.OK() {
+						if l, ok := o.Val.(slip.List); ok && len(l) == 2 {
+							cell = h.V{"v": l[0] != nil, "sure": l[1] != nil}
+						}
+					} else if len(errors) < 200 {
+						errors = append(errors, fmt.Sprintf("(subtypep '%s '%s) signals %s", ta, tb, o.Class))
+					}
+					sub[a][b] = cell
+				}
+			}
+			ev["subtypep"] = sub
+			known := make([]bool, len(st.Types))
+			for a, ta := range st.Types {
+				known[a] = ta == "t" || truthy(fmt.Sprintf("(find-class '%s nil)", ta))
+			}
+			ev["known"] = known
+			co := []any{}
+			for _, c := range st.Coerce {
+				i, t := int(c[0].(float64)), c[1].(string)
+				o := h.Eval(s, fmt.Sprintf("(coerce u%d '%s)", i, t))
+				isT := false
+				if o.OK() {
+					s.Let(slip.Symbol("vcoerced"), o.Val)
+					isT = truthy(fmt.Sprintf("(typep vcoerced '%s)", t))
+				}
+				co = append(co, h.V{"i": i + 1, "t": t, "ok": o.OK(), "isT": isT})
+			}
+			ev["coerce"] = co
+			for i, e := range errors { // name the universe elements
+				for k := n - 1; k >= 0; k-- {
+					e = strings.ReplaceAll(e, fmt.Sprintf("u%d ", k), st.Univ[k]+" ")
+					e = strings.ReplaceAll(e, fmt.Sprintf("u%d)", k), st.Univ[k]+")")
+				}
+				errors[i] = e
+			}
+			ev["errors"] = errors
 			out.Emit(ev)
 			return
 		}
-		test := st.Test
-		if test == "" {
-			test = "eql"
-		}
-		h.Eval(s, fmt.Sprintf("(setq h (make-hash-table :test '%s))", test))
+		h.Eval(s, fmt.Sprintf("(setq h (make-hash-table :test '%s))", st.Test))
 		for i, op := range st.Ops {
-			ev := h.V{"t": st.ID, "i": i + 1, "ev": op.Ev, "k": op.K, "v": op.V}
+			u := 0
+			if op.K < len(st.Keys) {
+				u = st.Keys[op.K]
+			}
+			ev := h.V{"t": st.ID, "i": i + 1, "ev": op.Ev, "k": u, "v": op.V, "test": st.Test, "present": false, "seen": []any{}, "fault": false}
+			val := "nil"
+			if op.V >= 0 {
+				val = fmt.Sprint(op.V)
+			}
+			var o h.Outcome
 			switch op.Ev {
 			case "put":
-				ev["ok"] = h.Eval(s, fmt.Sprintf("(setf (gethash u%d h) %d)", op.K, op.V)).OK()
+				o = h.Eval(s, fmt.Sprintf("(setf (gethash u%d h) %s)", u, val))
 			case "get":
-				o := h.Eval(s, fmt.Sprintf("(multiple-value-list (gethash u%d h))", op.K))
-				ev["ok"] = o.OK()
+				o = h.Eval(s, fmt.Sprintf("(multiple-value-list (gethash u%d h))", u))
 				ev["v"] = -1
-				if l, ok := o.Val.(slip.List); ok && len(l) > 0 {
+				if l, ok := o.Val.(slip.List); ok && len(l) == 2 {
 					if f, isf := l[0].(slip.Fixnum); isf {
 						ev["v"] = int(f)
 					}
+					ev["present"] = l[1] != nil
 				}
 			case "rem":
-				ev["ok"] = h.Eval(s, fmt.Sprintf("(remhash u%d h)", op.K)).OK()
+				o = h.Eval(s, fmt.Sprintf("(remhash u%d h)", u))
+				ev["present"] = o.OK() && o.Val != nil
 			case "clr":
-				ev["ok"] = h.Eval(s, "(clrhash h)").OK()
+				o = h.Eval(s, "(clrhash h)")
+			case "map":
+				mu.Lock()
+				seen = nil
+				mu.Unlock()
+				o = h.Eval(s, "(maphash #'vseen h)")
+				mu.Lock()
+				if seen != nil {
+					ev["seen"] = seen
+				}
+				mu.Unlock()
 			}
+			ev["ok"], ev["fault"] = o.OK(), o.Fault()
 			ev["count"] = -1
-			if o := h.Eval(s, "(hash-table-count h)"); o.OK() {
-				if f, ok := o.Val.(slip.Fixnum); ok {
+			if c := h.Eval(s, "(hash-table-count h)"); c.OK() {
+				if f, ok := c.Val.(slip.Fixnum); ok {
 					ev["count"] = int(f)
 				}
 			}
